@@ -36,7 +36,21 @@ var c02Corpus = []string{
 	`function f(){let a=1,b=2;let o={a,b,c:a};let{a:x,b:y,c}=o;R(1,x,y,c)}f();`,
 	`function f(){function e(){return 1}function t(){return e()+1}{function n(){return t()}R(1,n())}}f();`,
 	`function f(a=b){let b=1;R(1,a,b)}f();function g(a=b){var b=2;R(2,a,b)}g();`,
-	// fixed findings (must pass): K-C02-3 class static block (1b16362)
+	// fixed findings (must pass): K-C02-1 (456a78f), K-C02-2 (f7bc618), K-C02-4 (ce69f48), K-C02-5 (2712531), K-C02-7 (4f65ca1)
+	`let x=2;if(R(1,0)){throw 1}else{let x=3;R(2,x)}R(3,x);`,
+	`if(R(1,0)){throw 1}else{let G=3;R(2,G)}R(3,G);`,
+	`{let x=2;if(R(1,0)){throw 1}else{let x=3;R(2,x)}R(3,x)}`,
+	`function q(o){with(o){}let x=2;if(R(1,0)){return 1}else{let x=3;R(2,x)}R(3,x)}q({});`,
+	`if(R(1,0)){throw 1}else{if(R(2,0)){throw 2}else{let G=3;R(3,G)}R(4,G)}R(5,G);`,
+	`function g(){let z=1;function f(o){let e=2;with(o){return R(1,z,e)}}return f}g()({});`,
+	`{let y=1;function f(o){with(o){return R(1,y)}}f({y:5})}`,
+	`function a(){let p=1;return()=>{let q=2;return{m(o){with(o){return R(1,p,q)}}}}}a()().m({p:8});`,
+	`{let y=1;with({y:5}){R(1,y)}}`,
+	`{for(let i=0;i<2;i++){var t=1;R(1,t,i)}}var i=7;R(2,i);`,
+	`function f(o){with(o){for(let x=0;x<1;x++){var w=1;R(1,w,x)}}var x=7;R(2,x)}f({});`,
+	`function f(){{let z=1;let w=R(1,z)}}f();`,
+	`{let a=1;let w=R(1,a)}`,
+	// K-C02-3 class static block (1b16362)
 	`function f(){let z=1;class A{static{let e=2;R(1,z,e)}}}f();`,
 	`function t(p1){class C{static{let e=R(1,1);R(2,e,p1)}}}t(5);`,
 }
@@ -44,7 +58,9 @@ var c02Corpus = []string{
 // c02TriggerProgram: programs under the narrow triggers of the open known findings.
 func c02TriggerProgram(r *h.RNG, i int) string {
 	x, y := r.Pick([]string{"x", "e", "t", "val"}), r.Pick([]string{"z", "q", "outer"})
-	switch i % 9 {
+	switch i % 10 {
+	case 9: // K-C02-8: a name read by a parameter initialiser and declared with var in the body, used from a block
+		return "function t(p=c){{c=5}var c;R(1,c)}t(1);"
 	case 8: // K-C02-7: block of declarations only, a later initialiser mentions an earlier name
 		return fmt.Sprintf("function f(){{let %s=1;let w=R(1,%s)}}f();", y, y)
 	case 6: // K-C02-6: a name of a parameter initialiser is declared in the body and used from a closure before that
